@@ -1,3 +1,40 @@
-From PV Require Import Life.Model.
-Theorem placeholder : True. Proof. exact I. Qed.
-Print Assumptions placeholder.
+(** C10 Lifecycle safety.  Property theorems only; proofs in Life/Proofs.v (same model and invariant as C09). *)
+From Coq Require Import ZArith List Bool.
+Import ListNotations.
+From PV Require Import Life.Model Life.Proofs.
+Local Open Scope Z_scope.
+
+(** isalive() never lies: True only for a running child, False only for a dead child that has now been reaped (and
+    the object is then marked terminated); it never fails in a reachable state *)
+Theorem C10_isalive_truth : forall w, Inv w ->
+  match isalive w with
+  | (RBool true, w') => alive (ch w') = true /\ s_terminated (sp w') = s_terminated (sp w)
+  | (RBool false, w') => alive (ch w') = false /\ reaped (ch w') = true /\ s_terminated (sp w') = true
+  | _ => False
+  end.
+Proof. exact isalive_truth. Qed.
+Print Assumptions C10_isalive_truth.
+
+(** no operation sequence ever signals a pid whose process is not alive, and none fails with "no child process" *)
+Theorem C10_kills_only_alive : forall ops w, Inv w -> Forall wf_op ops -> forallb no_close ops = true ->
+  Forall (fun k => snd k = true) (kills (fold_left (fun w o => snd (lstep w o)) ops w)).
+Proof. exact kills_only_alive. Qed.
+Print Assumptions C10_kills_only_alive.
+
+Theorem C10_no_echild : forall w o, Inv w -> wf_op o -> no_close o = true ->
+  Inv (snd (lstep w o)) /\ fst (lstep w o) <> RaisePty 1.
+Proof. exact lstep_inv. Qed.
+Print Assumptions C10_no_echild.
+
+(** terminate(force=True) leaves the child dead and reaped whether it ignores SIGHUP/SIGINT, is stopped, or has exited *)
+Theorem C10_terminate_force_kills : forall w, Inv w ->
+  match terminate w true with
+  | (RBool true, w') => Inv w' /\ alive (ch w') = false /\ reaped (ch w') = true /\ t_terminated (pt w') = true
+  | _ => False
+  end.
+Proof. exact terminate_force_kills. Qed.
+Print Assumptions C10_terminate_force_kills.
+
+Example C10_stubborn_stopped_child :
+  fst (terminate (world0 true true true) true) = RBool true.
+Proof. vm_compute. reflexivity. Qed.
